@@ -44,7 +44,8 @@ const (
 	opStatus
 	opChild
 	opIsRec
-	opEndPanic // defer span.End(); panic(v): End runs its recover() path
+	opEndPanic // defer span.End(); panic(v): End runs its recover() path (N=1: v.String() itself panics)
+	opRecErrPanic // RecordError(err) where err.Error() panics; the caller recovers and goes on
 )
 
 type op struct {
@@ -58,6 +59,8 @@ func (o op) coq() string {
 		return "OEnd"
 	case opAttr:
 		return "(MA " + strconv.Itoa(o.N) + ")"
+	case opRecErrPanic:
+		return "(MA 0)" // takes the span lock, leaves nothing behind
 	case opEvent, opRecErr:
 		return "ME"
 	case opLink:
@@ -73,7 +76,7 @@ func (o op) coq() string {
 }
 
 func (o op) String() string {
-	names := []string{"End", "SetAttributes", "AddEvent", "RecordError", "AddLink", "SetName", "SetStatus", "ChildStart", "IsRecording", "End(while panicking)"}
+	names := []string{"End", "SetAttributes", "AddEvent", "RecordError", "AddLink", "SetName", "SetStatus", "ChildStart", "IsRecording", "End(while panicking)", "RecordError(err whose Error() panics)"}
 	if o.Kind == opAttr {
 		return fmt.Sprintf("SetAttributes(%d keys)", o.N)
 	}
@@ -127,7 +130,35 @@ type recProc struct {
 	reg *registry
 }
 
-func (p *recProc) OnStart(context.Context, sdktrace.ReadWriteSpan) {}
+// childInfo travels in the context of a child Start: the first processor to be told about the child
+// stamps the announcement, then dawdles so that other goroutines run inside the child's Start.
+type childKey struct{}
+type childInfo struct {
+	ann   atomic.Int64
+	delay int          // 0 none, 1..3 yields, >3 sleep that many microseconds
+	flag  *atomic.Bool // optional gate: set at the announcement
+}
+
+func (p *recProc) OnStart(ctx context.Context, _ sdktrace.ReadWriteSpan) {
+	ci, _ := ctx.Value(childKey{}).(*childInfo)
+	if ci == nil {
+		return
+	}
+	if ci.ann.CompareAndSwap(0, seq.Add(1)) {
+		if ci.flag != nil {
+			ci.flag.Store(true)
+		}
+		switch {
+		case ci.delay == 0:
+		case ci.delay <= 3:
+			for i := 0; i < ci.delay; i++ {
+				runtime.Gosched()
+			}
+		default:
+			time.Sleep(time.Duration(ci.delay) * time.Microsecond)
+		}
+	}
+}
 
 func (p *recProc) OnEnd(s sdktrace.ReadOnlySpan) {
 	n := seq.Add(1)
@@ -190,7 +221,7 @@ func observe(s sdktrace.ReadOnlySpan) *snapObs {
 					if m, ok := parseID(kv.Value.AsString(), "x"); ok {
 						ob.Parts = append(ob.Parts, [2]int{m, 0})
 						found = true
-					} else if m, ok := parseID(kv.Value.AsString(), "p"); ok {
+					} else if m, ok := parsePanicMsg(kv.Value.AsString()); ok {
 						// recorded by End itself while panicking: the pseudo call panicBase+m
 						ob.Parts = append(ob.Parts, [2]int{panicBase + m, 0})
 						found = true
@@ -226,10 +257,26 @@ func observe(s sdktrace.ReadOnlySpan) *snapObs {
 	return ob
 }
 
+// parsePanicMsg: "p<id>", or what fmt makes of a String method that panicked with "q<id>".
+func parsePanicMsg(s string) (int, bool) {
+	if m, ok := parseID(s, "p"); ok {
+		return m, true
+	}
+	const pre = "%!v(PANIC=String method: q"
+	if strings.HasPrefix(s, pre) && strings.HasSuffix(s, ")") {
+		v, err := strconv.Atoi(s[len(pre) : len(s)-1])
+		return v, err == nil
+	}
+	return 0, false
+}
+
 var linkSC = trace.NewSpanContext(trace.SpanContextConfig{TraceID: trace.TraceID{1}, SpanID: trace.SpanID{2}})
 
 // doOp issues one call on the span and returns IsRecording's answer (false otherwise).
-func doOp(tr trace.Tracer, sp trace.Span, id int, o op) bool {
+func doOp(tr trace.Tracer, sp trace.Span, id int, o op) bool { return doOpCI(tr, sp, id, o, nil) }
+
+// doOpCI: ci (child Start only) receives the announcement stamp and carries the OnStart delay.
+func doOpCI(tr trace.Tracer, sp trace.Span, id int, o op, ci *childInfo) bool {
 	switch o.Kind {
 	case opEnd:
 		sp.End()
@@ -250,12 +297,21 @@ func doOp(tr trace.Tracer, sp trace.Span, id int, o op) bool {
 	case opStatus:
 		sp.SetStatus(codes.Error, "s"+strconv.Itoa(id))
 	case opChild:
-		_, ch := tr.Start(trace.ContextWithSpan(context.Background(), sp), "child")
+		ctx := trace.ContextWithSpan(context.Background(), sp)
+		if ci != nil {
+			ctx = context.WithValue(ctx, childKey{}, ci)
+		}
+		_, ch := tr.Start(ctx, "child")
 		ch.End()
+	case opRecErrPanic:
+		func() {
+			defer func() { _ = recover() }()
+			sp.RecordError(panicErr{id})
+		}()
 	case opIsRec:
 		return sp.IsRecording()
 	case opEndPanic:
-		endPanicking(sp, id)
+		endPanicking(sp, id, o.N == 1)
 	}
 	return false
 }
@@ -264,20 +320,31 @@ const panicBase = 1000
 
 // slowValue is the panic value: formatting it (which End does under the span lock, to record the
 // exception event) yields and sleeps, so that the other callers pile up behind it.
-type slowValue struct{ id int }
+type slowValue struct {
+	id  int
+	bad bool
+}
 
 func (v slowValue) String() string {
 	runtime.Gosched()
 	time.Sleep(20 * time.Microsecond)
+	if v.bad {
+		panic("q" + strconv.Itoa(v.id)) // user code panicking inside End's formatting
+	}
 	return "p" + strconv.Itoa(v.id)
 }
 
+// panicErr is an error whose Error method panics (RecordError calls it under the span lock).
+type panicErr struct{ id int }
+
+func (e panicErr) Error() string { panic("user Error() method panics") }
+
 // endPanicking runs `defer span.End(); panic(v)` and survives it.
-func endPanicking(sp trace.Span, id int) {
+func endPanicking(sp trace.Span, id int, bad bool) {
 	defer func() { _ = recover() }()
 	func() {
 		defer sp.End()
-		panic(slowValue{id})
+		panic(slowValue{id, bad})
 	}()
 }
 
@@ -388,7 +455,7 @@ func histTerm(P int, tracing bool, lims [3]int, tbl *snapTable, hist, rereads []
 
 // issue performs one call with its history records. End-while-panicking is recorded as the End call
 // wrapped in a pseudo AddEvent call (id panicBase+id) standing for the exception event End records.
-func issue(tr trace.Tracer, sp trace.Span, id int, o op) []rec {
+func issue(tr trace.Tracer, sp trace.Span, id int, o op, gate *atomic.Bool) []rec {
 	if o.Kind == opEndPanic {
 		ev := op{Kind: opEvent}
 		a := rec{Seq: seq.Add(1), Kind: 'C', T: panicBase + id, Op: ev}
@@ -399,9 +466,21 @@ func issue(tr trace.Tracer, sp trace.Span, id int, o op) []rec {
 		return []rec{a, b, c, d}
 	}
 	c := rec{Seq: seq.Add(1), Kind: 'C', T: id, Op: o}
+	if o.Kind == opChild {
+		// the child's "return" is stamped when the first processor is told about it (OnStart), or at the
+		// real return without processors: from then on the child must be counted by its parent
+		ci := &childInfo{delay: o.N, flag: gate}
+		doOpCI(tr, sp, id, o, ci)
+		end := seq.Add(1)
+		if a := ci.ann.Load(); a != 0 {
+			end = a
+		}
+		return []rec{c, {Seq: end, Kind: 'R', T: id, Op: o}}
+	}
 	ret := doOp(tr, sp, id, o)
 	return []rec{c, {Seq: seq.Add(1), Kind: 'R', T: id, Op: o, Ret: ret}}
 }
+
 
 func (t *snapTable) coq() string { return "[" + strings.Join(t.terms, "; ") + "]" }
 
@@ -444,16 +523,6 @@ func finish(st *spanTrack, calls []rec, lims [3]int) (hist []string, tbl *snapTa
 		}
 		if st.live != nil {
 			ob := observe(st.live)
-			// snapshot() copies the event / link drop count only when the queue is non-empty, so under a
-			// limit of 0 the delivered snapshot reports 0 where the live span reports the real count:
-			// not part of this property, compared on the delivered value
-			first := observe(delivered[0])
-			if lims[1] == 0 {
-				ob.Drop[1] = first.Drop[1]
-			}
-			if lims[2] == 0 {
-				ob.Drop[2] = first.Drop[2]
-			}
 			bad += ob.Bad
 			rereads = append(rereads, strconv.Itoa(tbl.add(ob)))
 		}
@@ -478,8 +547,10 @@ func genOp(r *vgen.Rand, endWeight int) op {
 		return op{Kind: opName}
 	case x < 14:
 		return op{Kind: opStatus}
+	case x < 16:
+		return op{Kind: opChild, N: vgen.Pick(r, []int{0, 0, 1, 3, 20, 60, 200})} // N: how long OnStart dawdles
 	case x < 17:
-		return op{Kind: opChild}
+		return op{Kind: opRecErrPanic}
 	case x < 20:
 		return op{Kind: opIsRec}
 	}
@@ -495,7 +566,14 @@ func opsCoq(ops []op) string {
 }
 
 // watchdog runs f and reports a hang instead of blocking forever.
+// stuck is raised by the first hang: the goroutines of a stuck scenario stay around, so the remaining
+// scenarios are skipped (the verdict is a VIOLATION already).
+var stuck atomic.Bool
+
 func watchdog(w *vgen.Writer, what string, desc any, d time.Duration, f func()) bool {
+	if stuck.Load() {
+		return false
+	}
 	done := make(chan struct{})
 	var pan any
 	go func() {
@@ -511,9 +589,10 @@ func watchdog(w *vgen.Writer, what string, desc any, d time.Duration, f func()) 
 		}
 		return true
 	case <-time.After(d):
+		stuck.Store(true)
 		buf := make([]byte, 1<<16)
 		n := runtime.Stack(buf, true)
-		w.Violation("hang (deadlock?) in "+what+" after "+d.String(), map[string]any{"case": desc, "goroutines": string(buf[:n])})
+		w.Violation("Stuck: "+what+" did not finish within "+d.String()+" (a span call never returned: deadlock / lock left held)", map[string]any{"case": desc, "goroutines": string(buf[:n])})
 		return false
 	}
 }
@@ -531,9 +610,7 @@ func seqCase(w *vgen.Writer, r *vgen.Rand, tracing bool, P int, ops []op, kind s
 		sp, st := e.startSpan()
 		var calls []rec
 		for i, o := range ops {
-			calls = append(calls, rec{Seq: seq.Add(1), Kind: 'C', T: i, Op: o})
-			ret := doOp(e.tr, sp, i, o)
-			calls = append(calls, rec{Seq: seq.Add(1), Kind: 'R', T: i, Op: o, Ret: ret})
+			calls = append(calls, issue(e.tr, sp, i, o, nil)...)
 		}
 		hist, tbl, rereads, hdesc, bad := finish(st, calls, unlimited)
 		desc["history"] = hdesc
@@ -591,7 +668,7 @@ func raceCase(w *vgen.Writer, r *vgen.Rand, tracing bool, kind string, storm boo
 	for g := range progs { // some End calls come from a deferred call in a panicking goroutine
 		for j := range progs[g] {
 			if progs[g][j].o.Kind == opEnd && r.Chance(1, 4) {
-				progs[g][j].o = op{Kind: opEndPanic}
+				progs[g][j].o = op{Kind: opEndPanic, N: r.Intn(2)}
 			}
 		}
 	}
@@ -617,7 +694,7 @@ func raceCase(w *vgen.Writer, r *vgen.Rand, tracing bool, kind string, storm boo
 					runtime.Gosched()
 				}
 				for _, p := range progs[g] {
-					calls[g][p.span] = append(calls[g][p.span], issue(e.tr, spans[p.span], p.id, p.o)...)
+					calls[g][p.span] = append(calls[g][p.span], issue(e.tr, spans[p.span], p.id, p.o, nil)...)
 				}
 			}(g)
 		}
@@ -680,10 +757,11 @@ func stormLoop(w *vgen.Writer, r *vgen.Rand, tracing bool, trials int, kind stri
 			lims = genLimits(r)
 		}
 		panicking := r.Chance(1, 4) // a batch where worker 0 ends every span from a panicking goroutine
-		if panicking {
-			n = min(n, 400) // formatting the panic value sleeps: keep the batch short
+		gated := !panicking && r.Chance(1, 4) // worker 0 starts a child whose OnStart dawdles; the others End once it is announced
+		if panicking || gated {
+			n = min(n, 400) // these batches sleep per span: keep them short
 		}
-		desc := map[string]any{"fragment": "end-storm", "runtime_trace": tracing, "spans": n, "goroutines": G, "processors": P, "limits": lims, "end_while_panicking": panicking}
+		desc := map[string]any{"fragment": "end-storm", "runtime_trace": tracing, "spans": n, "goroutines": G, "processors": P, "limits": lims, "end_while_panicking": panicking, "gated_child": gated}
 		watchdog(w, "End storm", desc, 120*time.Second, func() {
 			e := newEnvLim(P, lims)
 			spans := make([]trace.Span, n)
@@ -700,11 +778,18 @@ func stormLoop(w *vgen.Writer, r *vgen.Rand, tracing bool, trials int, kind stri
 						o = genOp(r, 0)
 					}
 					if panicking && g == 0 {
-						o = op{Kind: opEndPanic}
+						o = op{Kind: opEndPanic, N: r.Intn(2)}
+					}
+					if gated && g == 0 {
+						o = op{Kind: opChild, N: vgen.Pick(r, []int{3, 30, 100})}
+					}
+					if gated && g == 1 {
+						o = op{Kind: opEnd}
 					}
 					ops[g][i] = o
 				}
 			}
+			gates := make([]atomic.Bool, n)
 			recs := make([][][]rec, G)
 			var wg sync.WaitGroup
 			var start sync.WaitGroup
@@ -717,7 +802,16 @@ func stormLoop(w *vgen.Writer, r *vgen.Rand, tracing bool, trials int, kind stri
 					start.Wait()
 					my, mo := recs[g], ops[g]
 					for i := 0; i < n; i++ {
-						my[i] = issue(e.tr, spans[i], g, mo[i])
+						var gate *atomic.Bool
+						if gated {
+							gate = &gates[i]
+							if g > 0 { // run inside the child's Start: wait for its announcement
+								for k := 0; !gate.Load() && k < 2000000; k++ {
+									runtime.Gosched()
+								}
+							}
+						}
+						my[i] = issue(e.tr, spans[i], g, mo[i], gate)
 					}
 				}(g)
 			}
@@ -747,6 +841,9 @@ func stormLoop(w *vgen.Writer, r *vgen.Rand, tracing bool, trials int, kind stri
 				if mixed || panicking {
 					rate = stormSample / 4
 				}
+				if gated {
+					rate = 8
+				}
 				if !odd && !r.Chance(1, rate) {
 					continue
 				}
@@ -765,7 +862,7 @@ func stormLoop(w *vgen.Writer, r *vgen.Rand, tracing bool, trials int, kind stri
 				if bad != "" {
 					w.Violation("snapshot content that no call produced: "+bad, d)
 				}
-				w.Tally(fmt.Sprintf("storm:trace=%v:mixed=%v:panicking=%v", tracing, mixed, panicking))
+				w.Tally(fmt.Sprintf("storm:trace=%v:mixed=%v:panicking=%v:gated=%v", tracing, mixed, panicking, gated))
 				w.Add(term, d, kind, true)
 			}
 		})
@@ -802,6 +899,8 @@ func main() {
 		{{Kind: opChild}, {Kind: opEnd}, {Kind: opChild}},
 		{{Kind: opName}, {Kind: opStatus}, {Kind: opName}, {Kind: opEnd}, {Kind: opName}, {Kind: opStatus}},
 		{{Kind: opIsRec}},
+		// user code panicking inside a span call (recovered by the caller), then the span is used on
+		{{Kind: opRecErrPanic}, {Kind: opEvent}, {Kind: opStatus}, {Kind: opRecErrPanic}, {Kind: opChild}, {Kind: opIsRec}, {Kind: opEnd}, {Kind: opRecErrPanic}, {Kind: opIsRec}},
 		{{Kind: opRecErr}, {Kind: opEvent}, {Kind: opLink}, {Kind: opEnd}, {Kind: opRecErr}, {Kind: opEvent}, {Kind: opLink}},
 	}
 	if !*raceChild {
